@@ -141,9 +141,55 @@ class Ctx:
 
 
 # ---------------------------------------------------------------------------------------------
+def sizeinbase_sites():
+    """the digit-count estimators  (size_t) (bits * (chars_per_bit_exactly [+ K])) + 1  in the library (the MPN_SIZEINBASE macro as it
+    expands in mpz_sizeinbase and the other users, and mpn_sizeinbase): [(file, function, line, K)] with K the additive margin"""
+    import sa, compdb
+    cfg = sa.Config("built-sib", extra_files=[os.path.join(REPO, "mpn/generic/sizeinbase.c")])
+    ex = sa.export(cfg)
+    out = []
+
+    def strip(e):
+        while isinstance(e, dict) and e.get("k") in ("cast", "paren"):
+            e = e["e"]
+        return e
+
+    def cpbe(e):
+        """K if e is  member chars_per_bit_exactly  [+ float K], else None"""
+        e = strip(e)
+        if isinstance(e, dict) and e.get("k") == "member" and e["field"] == "chars_per_bit_exactly":
+            return 0.0
+        if isinstance(e, dict) and e.get("k") == "binop" and e["op"] == "+":
+            for a, b in ((e["l"], e["r"]), (e["r"], e["l"])):
+                a, b = strip(a), strip(b)
+                if isinstance(a, dict) and a.get("k") == "member" and a["field"] == "chars_per_bit_exactly" and isinstance(b, dict) and b.get("k") == "float":
+                    return float(b["v"])
+        return None
+    for path, fn in ex.functions():
+        for b in fn["blocks"]:
+            for el in b["elems"]:
+                def f(n, el=el):
+                    # (size_t) (bits * X) + 1
+                    if n.get("k") == "binop" and n["op"] == "+" and strip(n["r"]).get("k") == "int" and strip(n["r"])["v"] == 1:
+                        m = strip(n["l"])
+                        if isinstance(m, dict) and m.get("k") == "binop" and m["op"] == "*":
+                            for x in (m["l"], m["r"]):
+                                k_ = cpbe(x)
+                                if k_ is not None:
+                                    out.append((relpath(path), fn["name"], el["line"], k_))
+                sa.walk(el["e"], f)
+    return sorted(set(out))
+
+
 def check_bases(facts, c):
     g = table(facts, "__gmpn_bases")
     rows = g["init"]
+    sites = sizeinbase_sites()
+    if not any(s_[1] == "__gmpz_sizeinbase" for s_ in sites):
+        raise AnalysisBroken("R-TABLES: the digit-count estimate of mpz_sizeinbase (MPN_SIZEINBASE) was not recognised: %r" % (sites,))
+    margin = min(s_[3] for s_ in sites)
+    worst_site = [s_ for s_ in sites if s_[3] == margin][0]
+    c.res["samples"].append(dict(rule="R-TABLES.sizeinbase", estimator_sites=len(sites), smallest_margin=margin, at="%s:%d" % (worst_site[0], worst_site[2])))
     c.check(len(rows) == 257, "mpn/generic/mp_bases.c", "bases-len", "__gmpn_bases has %d entries, 257 expected" % len(rows))
     decimal.getcontext().prec = 60
     ln2 = decimal.Decimal(2).ln()
@@ -176,18 +222,20 @@ def check_bases(facts, c):
         # cannot undo the margin); otherwise the continued fraction of L is searched for a witness bit count.
         if b & (b - 1):
             c.res["stats"]["sizeinbase_obligations"] += 1
-            if d >= exact * (1 + decimal.Decimal(2) ** -52):
+            eff = cpb["double"] + margin                         # the constant the estimators multiply with (IEEE double addition)
+            if decimal.Decimal(eff) >= exact * (1 + decimal.Decimal(2) ** -52):
                 c.res["stats"]["sizeinbase_proved"] += 1
             else:
-                w = sizeinbase_witness(cpb["double"], exact)
+                w = sizeinbase_witness(eff, exact)
                 if w is None:
                     c.res["stats"]["sizeinbase_undecided"] += 1
                 else:
                     t, est, true = w
                     c.check(False, f, "sizeinbase-underestimate:base=%d" % b,
-                            "MPN_SIZEINBASE underestimates in base %d: chars_per_bit_exactly %.17g is below log(2)/log(%d), so for the %d-bit "
-                            "number 2^%d-1 it yields %d digits while the number has %d; mpz_get_str (NULL, %d, x) then writes one "
-                            "byte past its block and mpz_sizeinbase is one too SMALL" % (b, cpb["double"], b, t, t, est, true, b),
+                            "MPN_SIZEINBASE underestimates in base %d: chars_per_bit_exactly %.17g%s is below log(2)/log(%d), so for the %d-bit "
+                            "number 2^%d-1 the estimator at %s:%d yields %d digits while the number has %d; mpz_get_str (NULL, %d, x) then writes one "
+                            "byte past its block and mpz_sizeinbase is one too SMALL" % (b, cpb["double"], " + %g" % margin if margin else "", b, t, t,
+                                                                                      worst_site[0], worst_site[2], est, true, b),
                             fn="MPN_SIZEINBASE")
     c.res["samples"].append(dict(rule="R-TABLES", table="__gmpn_bases", entry=10, value=[int(rows[10][0]), rows[10][1]["double"], rows[10][2], rows[10][3]]))
 
